@@ -3,6 +3,7 @@ package harness
 import (
 	"fmt"
 	"strings"
+	"sync/atomic"
 	"time"
 
 	ml "github.com/hashicorp/memberlist"
@@ -84,4 +85,57 @@ func scalePoints(prop, fn string, id string) {
 		m, iv = 1, 7
 	}
 	emit("%s scale id=%s fn=%s mult=%d interval=%d ns=%s vals=%s", prop, id, fn, m, iv, strings.Join(ns, ","), strings.Join(vs, ","))
+}
+
+// lockStir: membership updates (node lock, then the broadcast queue) on one goroutine against broadcast
+// retrieval for outgoing packets (queue, with its cluster-size callback) and the query API on others.
+// Whatever the interleaving, every goroutine must come back: a cycle in the lock order shows as a stall.
+func lockStir(prop string, r *rng, id string) {
+	n, err := newCnode(ccfg{name: "n0"})
+	if err != nil {
+		return
+	}
+	m := n.m
+	vsn := []uint8{1, 5, 2, 0, 0, 0}
+	peers := 2 + r.intn(12)
+	for i := 1; i <= peers; i++ {
+		ml.VerifAliveNode(m, 1, fmt.Sprintf("n%d", i), []byte{10, 0, 0, byte(i)}, 7946, nil, vsn, nil, false)
+	}
+	to := &ml.Node{Name: "n1", Addr: []byte{10, 0, 0, 1}, Port: 7946, PMax: 5}
+	var stop atomic.Bool
+	var exited atomic.Int32
+	var rounds [4]atomic.Int64
+	work := []func(k uint32){
+		func(k uint32) {
+			ml.VerifAliveNode(m, 2+k, fmt.Sprintf("n%d", 1+int(k)%peers), []byte{10, 0, 0, byte(1 + int(k)%peers)}, 7946, []byte{byte(k)}, vsn, nil, false)
+		},
+		func(k uint32) { ml.VerifGetBroadcasts(m, 2, 1400) },
+		func(k uint32) { m.SendBestEffort(to, []byte("x")); n.tr.take() },
+		func(k uint32) {
+			m.NumMembers()
+			ml.VerifSuspectNode(m, 2+k, fmt.Sprintf("n%d", 1+int(k)%peers), "n0")
+		},
+	}
+	for g := range work {
+		go func(g int) {
+			defer func() { recover(); exited.Add(1) }()
+			for k := uint32(0); !stop.Load(); k++ {
+				work[g](k)
+				rounds[g].Add(1)
+			}
+		}(g)
+	}
+	time.Sleep(time.Duration(30+r.intn(40)) * time.Millisecond)
+	stop.Store(true)
+	stalled := 0
+	for i := 0; i < 300 && int(exited.Load()) < len(work); i++ {
+		time.Sleep(10 * time.Millisecond)
+	}
+	if int(exited.Load()) < len(work) {
+		stalled = len(work) - int(exited.Load())
+	}
+	emit("%s lockstir id=%s peers=%d rounds=%d.%d.%d.%d stalled=%d", prop, id, peers, rounds[0].Load(), rounds[1].Load(), rounds[2].Load(), rounds[3].Load(), stalled)
+	if stalled == 0 {
+		m.Shutdown()
+	}
 }
